@@ -4,7 +4,7 @@ CONSTANTS
   GeoSets = {{1}, {4}, {1, 4}}
   PolGeoSets = {{1, 4}}
   McMixed = {TRUE, FALSE}
-  McMoreSel = {<<2, {1}>>}
+  McMoreSel = TRUE
   Kinds = {0, 3}
   CostBase = 3
   Den = 1
